@@ -2620,6 +2620,12 @@ class RockRidge:
 
         if px_record_length == 44 or sf_record_length == 21 or has_es_record or er_id == EXT_ID_112:
             self.rr_version = '1.12'
+        elif continuation and self._initialized:
+            # A continuation area only holds the entries that did not fit into
+            # the directory record, so the absence of a hint here must not
+            # override what the directory record part already told us.
+            if sf_record_length == 12 and self.rr_version == '1.09':
+                self.rr_version = '1.10'
         else:
             # Not 1.12, so either 1.09 or 1.10.
             if sf_record_length == 12:
